@@ -1,6 +1,7 @@
 /- tree-construction ops of the line-protocol driver -/
 import H5.Wire
 import H5.Model.TreeBuilder
+import H5.Model.Parser
 open H5 H5.Wire
 
 /-- request of the `tree` / `treev` ops -/
@@ -53,6 +54,12 @@ def handleTree (verbose : Bool) (rest : List String) (maxRec : Option Nat := non
 
 def handleTreeOps (ws : List String) : Option String :=
   match ws with
+  | "parse" :: rest =>
+    match run (do let c ← ostr; let sc ← bool; let ns ← bool; let input ← str; pure (c, sc, ns, input)) rest with
+    | some (c, sc, ns, input) =>
+      let cfg : H5.Model.TB.Cfg := { innerHTML := c, scripting := sc, namespaceHTMLElements := ns }
+      some <| encExcept (fun r => encTree r.1 ++ " | " ++ encList encStr r.2) (H5.Model.Parser.parse cfg input)
+    | none => some "bad-request"
   | "tree" :: rest => some (handleTree false rest)
   | "treev" :: rest => some (handleTree true rest)
   | "treer" :: n :: rest =>
